@@ -11,11 +11,13 @@ package main
 // deterministically; the loader's map scans run under tape-chosen orders.
 
 import (
+	"archive/tar"
 	"fmt"
 	"io"
 	"sort"
 	"strconv"
 	"strings"
+	"verifsim/simos"
 
 	"pault.ag/go/debian/deb"
 	"verifsim/rt"
@@ -464,6 +466,57 @@ func runC15(r *rt.Run, tier string) {
 			r.Violate("C15/nondeterministic-outcome", "deb.Load/reload-after-double-close", "the same bytes: first load lists %s; after a package was closed twice, two concurrent loads list %s and %s", clip(ref, 200), clip(a, 200), clip(b, 200))
 		}
 	}
+	// the caller keeps what it needs from a package opened with LoadFile - the
+	// payload reader and the close function - and lets go of the *Deb itself; a
+	// garbage collection (finalizers included) runs before the payload is read.
+	// The listing is the one a caller gets who holds on to the *Deb.
+	if target == "deb" && t.Bool(1, 12, "c15.gc") {
+		fsys := simos.New(r)
+		fsys.PutQuiet("/pkgs/x.deb", img)
+		simos.Install(fsys)
+		var ref, held string
+		listTar := func(tr *tar.Reader) string {
+			files, ferr := readDataTar(tr)
+			names := []string{}
+			for _, f := range files {
+				names = append(names, fmt.Sprintf("%s/%d", f.Name, len(f.Body)))
+			}
+			return fmt.Sprintf("%v err=%v", names, ferr)
+		}
+		tk := r.Solo("holds-the-deb", func() {
+			d, closeFn, err := deb.LoadFile("/pkgs/x.deb")
+			if err != nil {
+				ref = "load error: " + err.Error()
+				return
+			}
+			ref = listTar(d.Data)
+			closeFn()
+		})
+		var data *tar.Reader
+		var closeFn deb.Closer
+		tk2 := r.Solo("drops-the-deb", func() {
+			d, c, err := deb.LoadFile("/pkgs/x.deb")
+			if err != nil {
+				held = "load error: " + err.Error()
+				return
+			}
+			data, closeFn = d.Data, c
+		})
+		if tk.Panic == nil && tk2.Panic == nil && data != nil {
+			collectGarbage()
+			tk3 := r.Solo("reads-after-gc", func() {
+				held = listTar(data)
+				closeFn()
+			})
+			if tk3.Panic != nil {
+				r.Violate("C15/panic", "LoadFile/after-gc", "panic: %v", tk3.Panic)
+			} else if held != ref {
+				r.Violate("C15/nondeterministic-outcome", "LoadFile/deb-dropped-before-payload-read", "the same file: a caller that keeps the *Deb lists %s; a caller that keeps only Data and the close function, with a garbage collection before it reads, lists %s", clip(ref, 200), clip(held, 200))
+			}
+			r.Probe("payload-read-after-the-deb-was-dropped-and-garbage-collected")
+		}
+		simos.Install(nil)
+	}
 	// the .deb loader, several times under different member orders
 	var first debOutcome
 	for i := 0; i < 3; i++ {
@@ -508,5 +561,5 @@ func init() {
 		},
 		Assumptions: []string{"inputs are structured corruptions of valid archives and raw bytes drawn from a header-like alphabet; coverage-guided fuzzing (named in the property's quantifier) is a different technique and is not used", "only stored and gzip members are damaged for deb.Load, as the statement excludes the third-party decoders on hostile streams"},
 	})
-	propProbes["C15"] = []string{"input-is-a-window-into-a-larger-device", "package-reloaded-after-double-close", "two-archives-iterated-concurrently", "reader-fails-beyond-the-end-with-a-non-EOF-error", "reader-with-sequential-state", "iteration-ended-in-error", "iteration-ended-in-eof", "damaged-package-still-loads"}
+	propProbes["C15"] = []string{"payload-read-after-the-deb-was-dropped-and-garbage-collected", "input-is-a-window-into-a-larger-device", "package-reloaded-after-double-close", "two-archives-iterated-concurrently", "reader-fails-beyond-the-end-with-a-non-EOF-error", "reader-with-sequential-state", "iteration-ended-in-error", "iteration-ended-in-eof", "damaged-package-still-loads"}
 }
